@@ -315,7 +315,7 @@ func runORD23(p *Prog, r *RuleRun) {
 				}
 			}
 		}
-		return AV{}, false
+		return v.value(cx, val, f)
 	}
 	base := v.instr
 	nSend := 0
